@@ -229,7 +229,7 @@ type Finding = (&'static str, String, String); // (op, got, expected)
 
 fn check_structure(o: &Fun, s: &Fun, out: &mut Vec<Finding>) -> bool {
     let mut ok = true;
-    let mut bad = |g: String, e: String, out: &mut Vec<Finding>| {
+    let bad = |g: String, e: String, out: &mut Vec<Finding>| {
         out.push(("structure", g, e));
     };
     if o.entry != s.entry {
@@ -636,7 +636,41 @@ fn splitmix(s: &mut u64) -> u64 {
     z ^ (z >> 31)
 }
 
+/// `c10_witness probe`: the diamond of defect (i) - c is assigned on both branches, read only by the guards after the join
+fn probe() {
+    let mut cfg = il::ControlFlowGraph::new();
+    for _ in 0..5 { cfg.new_block().unwrap(); }
+    cfg.block_mut(1).unwrap().assign(c1(), il::expr_const(0, 1));
+    cfg.block_mut(2).unwrap().assign(c1(), il::expr_const(1, 1));
+    cfg.unconditional_edge(0, 1).unwrap();
+    cfg.unconditional_edge(0, 2).unwrap();
+    cfg.unconditional_edge(1, 3).unwrap();
+    cfg.unconditional_edge(2, 3).unwrap();
+    cfg.conditional_edge(3, 4, il::expr_scalar("c", 1)).unwrap();
+    cfg.conditional_edge(3, 0, il::Expression::cmpeq(il::expr_scalar("c", 1), il::expr_const(0, 1)).unwrap()).unwrap();
+    cfg.set_entry(0).unwrap();
+    let f = il::Function::new(0, cfg);
+    let g = ssa_transformation(&f).unwrap();
+    for b in g.control_flow_graph().blocks() {
+        println!("block {}: phi nodes [{}] instructions [{}]", b.index(),
+            b.phi_nodes().iter().map(|p| format!("{}", p)).collect::<Vec<_>>().join("; "),
+            b.instructions().iter().map(|i| format!("{}", i.operation())).collect::<Vec<_>>().join("; "));
+    }
+    for e in g.control_flow_graph().edges() {
+        println!("edge {} -> {} guard {}", e.head(), e.tail(), e.condition().map(|c| format!("{}", c)).unwrap_or("-".into()));
+    }
+    let (o, s) = (model(&f).unwrap(), model(&g).unwrap());
+    let mut fs: Vec<Finding> = vec![];
+    check_structure(&o, &s, &mut fs);
+    check_single_assignment(&s, &mut fs);
+    check_phi_shape(&s, &mut fs);
+    check_uses(&s, &mut fs);
+    check_semantics(&o, &s, &mut fs);
+    for (op, got, exp) in fs { println!("FINDING {}: {} (expected: {})", op, got, exp); }
+}
+
 fn main() {
+    if std::env::args().nth(1).as_deref() == Some("probe") { probe(); return; }
     std::panic::set_hook(Box::new(|_| {}));
     let mut found = 0usize;
     let mut evals = 0u64;
@@ -644,6 +678,12 @@ fn main() {
     let mut per_op: BTreeMap<String, usize> = BTreeMap::new();
     let mut with_unreachable = 0u64;
     let mut with_phi = 0u64;
+    let mut lines: Vec<(usize, String)> = vec![];
+    // report order: the most serious class first (the framework quotes the first line)
+    let rank = |op: &str| -> usize {
+        ["succeeds", "structure", "semantics", "use.guard", "use.instruction", "use.phi_incoming", "phi_incoming", "single_assignment", "single_assignment.unreachable_block"]
+            .iter().position(|x| *x == op).unwrap_or(99)
+    };
 
     let mut one = |n: usize, edges: u32, cont: &[usize], gk: usize, entry: usize| {
         functions += 1;
@@ -676,8 +716,8 @@ fn main() {
             let c = per_op.entry(op.to_string()).or_insert(0);
             *c += 1;
             if *c <= 3 && seen_ops.insert(op) {
-                println!("{{\"witness\":true,\"op\":\"{}\",\"input\":\"{}\",\"got\":\"{}\",\"expected\":\"{}\"}}", op, desc,
-                    got.replace('"', "'").replace('\\', "/").chars().take(400).collect::<String>(), exp.replace('"', "'").replace('\\', "/").chars().take(300).collect::<String>());
+                lines.push((rank(op), format!("{{\"witness\":true,\"op\":\"{}\",\"input\":\"{}\",\"got\":\"{}\",\"expected\":\"{}\"}}", op, desc,
+                    got.replace('"', "'").replace('\\', "/").chars().take(400).collect::<String>(), exp.replace('"', "'").replace('\\', "/").chars().take(300).collect::<String>())));
             }
         }
     };
@@ -715,6 +755,10 @@ fn main() {
                 one(n, edges, &cont, gk, entry);
             }
         }
+    }
+    lines.sort_by_key(|l| l.0);
+    for (_, l) in &lines {
+        println!("{}", l);
     }
     let po: Vec<String> = per_op.iter().map(|(k, v)| format!("\"{}\":{}", k, v)).collect();
     println!("{{\"summary\":true,\"evaluations\":{},\"functions\":{},\"functions_with_unreachable_blocks\":{},\"functions_with_phi_nodes\":{},\"disagreements\":{},\"per_op\":{{{}}}}}",
